@@ -13,7 +13,7 @@ REF_ROWS = {  # smart pointer handle -> std handle it is constructed from
 
 
 def run(tier):
-    ck = report.Check("C09", tier, level="proof")
+    ck = report.Check("C09", tier, level="other")
     cf = corpus.corpus_facts(tier)
     exp = corpus.expect(tier)
     ck.unit("corpus-%s probes" % tier)
